@@ -18,7 +18,7 @@ func init() {
 			"C04-WHO only Valid and exist call the recursive walker, exist is reached only for the rules exist and required. Nil sub-objects are skipped silently (shared with C13). The recursion is the same function, so the inductive step is the whole argument for arbitrary depth.",
 		Assume:  []string{"acyclic object graphs (property's exclusion)"},
 		Trusted: []string{"go/types", "go/ssa"},
-		Run:     func(c *Ctx) { runC04(c); sharedDeclaredRules(c); runExportPred(c, "C04-EXPORT") },
+		Run:     func(c *Ctx) { runC04(c); sharedDeclaredRules(c); runExportPred(c, "C04-EXPORT"); base(c, "STATE", "LOOP"); runToStrCases(c, "C04-PATHKEY"); runC04Strip(c, "C04-STRIP") },
 	})
 }
 
@@ -380,4 +380,107 @@ func structOf(t types.Type) *types.Struct {
 	}
 	st, _ := t.Underlying().(*types.Struct)
 	return st
+}
+
+// runC04Strip: the pointer-stripping helpers. Every walker relies on "after RemoveValuePtr the
+// value is not a pointer: it is the pointee at the end of the chain, or the invalid Value when
+// the chain ends in nil" (nil sub-objects are then skipped silently). Decided on the helper:
+// its loop is left only on the edge where Kind() == Ptr is false, and each iteration replaces
+// the value by its Elem(). A second exit (e.g. "&& !IsNil()") returns a nil pointer of kind Ptr,
+// which the walkers report as "is not struct" under exist.
+func runC04Strip(c *Ctx, rule string) {
+	p := c.P
+	c.Rule(rule, "RemoveValuePtr / RemoveTypePtr return a non-pointer: the stripping loop exits only where Kind() == Ptr is false and steps with Elem()", 2)
+	for _, name := range []string{"RemoveValuePtr", "RemoveTypePtr"} {
+		fn := p.Func("valid", name)
+		if fn == nil {
+			c.Unk(rule, "valid."+name, "strip", token.NoPos, "helper not found")
+			continue
+		}
+		c.Funcs[fnName(fn)] = true
+		c.Sites++
+		var bad []string
+		loops := naturalLoops(fn)
+		if len(loops) != 1 {
+			c.Unk(rule, fnName(fn), "strip", fn.Pos(), fmt.Sprintf("expected one stripping loop, found %d", len(loops)))
+			continue
+		}
+		l := loops[0]
+		isKindPtrOf := func(cond ssa.Value, v ssa.Value) (eq bool, ok bool) {
+			bo, isB := cond.(*ssa.BinOp)
+			if !isB || (bo.Op != token.EQL && bo.Op != token.NEQ) {
+				return false, false
+			}
+			k, isK := constInt(bo.Y)
+			if !isK || k != int64(reflect.Ptr) {
+				return false, false
+			}
+			call, isC := bo.X.(*ssa.Call)
+			if !isC {
+				return false, false
+			}
+			cc := &call.Call
+			var recv ssa.Value
+			if cc.IsInvoke() && cc.Method.Name() == "Kind" {
+				recv = cc.Value
+			} else if calleeName(cc) == "(reflect.Value).Kind" {
+				recv = cc.Args[0]
+			}
+			if recv != v {
+				return false, false
+			}
+			return bo.Op == token.EQL, true
+		}
+		// the carried value
+		var ph *ssa.Phi
+		for _, ins := range l.Header.Instrs {
+			if x, ok := ins.(*ssa.Phi); ok {
+				ph = x
+			}
+		}
+		if ph == nil {
+			c.Unk(rule, fnName(fn), "strip", fn.Pos(), "loop-carried value not found")
+			continue
+		}
+		for _, ee := range l.exitEdges() {
+			iff, ok := ee[0].Instrs[len(ee[0].Instrs)-1].(*ssa.If)
+			if !ok {
+				bad = append(bad, "the loop is left unconditionally")
+				continue
+			}
+			eq, okc := isKindPtrOf(iff.Cond, ph)
+			onTrue := ee[0].Succs[0] == ee[1]
+			if !okc || eq == onTrue {
+				bad = append(bad, "the stripping loop can be left while the value is still of kind Ptr (exit at "+p.Pos(iff.Pos())+"): a nil pointer at the end of the chain is returned as a pointer instead of the invalid Value")
+			}
+		}
+		for i, e := range ph.Edges {
+			if !l.Body[ph.Block().Preds[i]] {
+				continue
+			}
+			call, ok := e.(*ssa.Call)
+			okStep := false
+			if ok {
+				cc := &call.Call
+				if cc.IsInvoke() && cc.Method.Name() == "Elem" && cc.Value == ph {
+					okStep = true
+				}
+				if calleeName(cc) == "(reflect.Value).Elem" && cc.Args[0] == ph {
+					okStep = true
+				}
+			}
+			if !okStep {
+				bad = append(bad, "an iteration does not replace the value by its Elem()")
+			}
+		}
+		// returns the carried value
+		for _, b := range fn.Blocks {
+			if r, ok := b.Instrs[len(b.Instrs)-1].(*ssa.Return); ok {
+				if len(r.Results) != 1 || r.Results[0] != ph {
+					bad = append(bad, "the value returned is not the stripped value")
+				}
+			}
+		}
+		c.Check(len(bad) == 0, rule, fnName(fn), "strip", fn.Pos(), "loop exits only with Kind() != Ptr", uniqJoin(bad, 2))
+	}
 }
